@@ -113,6 +113,10 @@ type Op struct {
 	File []byte `json:"file,omitempty"`
 	// layout: which fields have a doc-value section in the real file (filled in when the op runs)
 	DVFlags []bool `json:"dv_flags,omitempty"`
+	// coder scripts (units.go)
+	Script     []COp    `json:"script,omitempty"`
+	EnumIns    []EnumIn `json:"enum_ins,omitempty"`
+	EnumScript []int    `json:"enum_script,omitempty"`
 }
 
 // Encode writes the op in the flat form parsed by Run.v (pop).
@@ -206,6 +210,10 @@ func (o *Op) Encode(w *W) {
 		w.Bytes(o.File)
 	case OpInterim:
 		w.Batch(o.Batch)
+	case OpUnitInt, OpUnitContent, OpUnitDoc:
+		encodeScript(w, o.Script)
+	case OpUnitEnum:
+		encodeEnum(w, o.EnumIns, o.EnumScript)
 	case OpContainer:
 		w.Num(uint64(o.Slot))
 		w.Bytes(o.File)
@@ -554,6 +562,17 @@ func (in *Interp) RunOp(o *Op) (out W) {
 		return in.layoutOp(o)
 	case OpContainer:
 		return in.containerOp(o)
+	case OpUnitInt, OpUnitContent, OpUnitDoc:
+		// a script on one of the chunk coders (verif hooks), compared with its model (Units.v)
+		if in.Impl != Current {
+			return W{ErrMark, 1}
+		}
+		return runUnitScript(o.Code, o.Script)
+	case OpUnitEnum:
+		if in.Impl != Current {
+			return W{ErrMark, 1}
+		}
+		return runEnumScript(o.EnumIns, o.EnumScript)
 	case OpInterim:
 		// the builder's in-memory state after the per-document pass (verif hook),
 		// compared with the statement-by-statement builder model (Builder.v)
